@@ -119,10 +119,11 @@ Definition annotation_bad (s : str) : bool :=
    | _ => memb c_comma q
    end).
 
-(* 0 = no finding clause falsified; 1 escape-order; 3 reserved segment; 4 annotation qualifier.
+(* 0 = no finding clause falsified; 3 reserved segment; 4 annotation qualifier.
+   (class 1, escape-order, is gone: the reader un-escapes in one pass since /repo 4b61c18, see Escape.unescape_escape_all)
    Computed against the PINNED tables: a change of the tables must not move inputs into a known class. *)
 Definition scalar_class (force : bool) (s : str) : N :=
-  if needs_quotes_pinned s || force then (if escape_safe s then 0 else 1)
+  if needs_quotes_pinned s || force then 0
   else if bare_reserved s then 3
   else if annotation_bad s then 4
   else 0.
